@@ -6,7 +6,11 @@ Kernels executed symbolically from MIR:
                                         types symbolic: Ok  =>  the possible types intersect
   query::resolve_selection              symbolic field type (object / interface / union / scalar / enum) with an
                                         empty or a non-empty sub-selection: Ok => composite xor empty
-  validation::selection_set_contains_type_name / validate_typename_presence are covered for termination in C17.
+  query::resolve (end to end)           on two document templates: `a { ...F } b { ...F }` with symbolic parent and fragment
+                                        types (the driver: which selections get validated), and `a { s1 s2 }` where each s_i is
+                                        symbolically a field / spread / inline fragment with a *free* name: Ok => fields exist,
+                                        fragments and types are defined, conditions can apply, __typename present on abstract types
+  validation::selection_set_contains_type_name is additionally covered for termination in C17.
 Counterexamples are rendered as GraphQL text and run through the public generator: `generation succeeded`
 on an invalid operation is the violation.  Name lookups (unknown field / fragment / type) and the text
 parsers are outside the claim.
@@ -60,12 +64,21 @@ def main():
     rt = native.ReplayTool(sc)
     rt.start_build()
     R = mcheck.MRun(vc.REPO, sc, 'codegen', max_depth=60)
-    cands = K.k_type_conditions(R) + K.k_resolve_selection(R)
+    cands = K.k_type_conditions(R) + K.k_resolve_selection(R) + K.k_resolve_document(R) + K.k_resolve_selection_sets(R, 2 if tier == 'quick' else 3)
     cands = [c for c in cands if c['prop'] == 'C06']
     replayed = 0
     seen = set()
     for c in cands:
-        if c['kernel'] == 'type_conditions':
+        if c['kernel'] == 'resolve_document':
+            role = 'driver:repeated-spread'
+            schema = schema_for(c).replace('type Query { o0: O0 o1: O1 i0: I0 u0: U0 }', f"type Query {{ a: {c['a']} b: {c['b']} }}")
+            inner = '__typename' if c['fragment_on'] == 'U0' else '__typename x'
+            query = f"query Q {{ a {{ __typename ...F }} b {{ __typename ...F }} }}\nfragment F on {c['fragment_on']} {{ {inner} }}\n"
+        elif c['kernel'] == 'resolve_selection_sets':
+            role = 'selection-set:' + ','.join(str(x) for x in c.get('failing_rule', []))[:20]
+            schema = schema_for(c).replace('type Query { o0: O0 o1: O1 i0: I0 u0: U0 }', f"type Query {{ a: {c['a']} }}")
+            query = f"query Q {{ a {{ {' '.join(c['selections'])} }} }}\nfragment F on {c['fragment_on']} {{ {c['fragment_field']} }}\n"
+        elif c['kernel'] == 'type_conditions':
             role = f"type-condition:{'object' if c['parent'].startswith('O') else 'abstract'}-parent"
             schema, query = render_type_condition(c)
         else:
@@ -114,7 +127,7 @@ def main():
     coverage = dict(
         states=R.paths, transitions=R.vm.queries, traces_validated_against_impl=replayed, samples=R.samples[:6] + native_facts[:6],
         obligations=R.obligations, discharged=R.discharged,
-        bounds=dict(schema='2 objects, 1 interface, 1 union, symbolic implements / membership', positions='one spread under one parent; one field with empty / non-empty sub-selection'),
+        bounds=dict(schema='2 objects, 1 interface, 1 union, symbolic implements / membership', positions='one spread under one parent; one field with empty / non-empty sub-selection; query::resolve end to end on two document templates (repeated spread under two symbolic parents; 2 [3] selections of symbolic kind and free names under a symbolic parent)'),
         outside_bounds='name lookups and the text parser (sampled natively above), deeper nesting of the invalid position, type conditions under field / inline-fragment parents',
         engine=R.evidence(), cross_check=cross, exhaustive=False)
     vc.write_evidence(PROP, 'model_checking', coverage,
